@@ -60,8 +60,8 @@ LEVEL_TEXT = {
             "assignment and evaluateAll the abstract pass; these state conditions hold in every world reached by creating properties, plain observers, fresh "
             "evaluator-driven bindings, assignments and evaluateAll, and in such a network the registration order is a duplicate-free dependency order; hence "
             "after ONE evaluateAll every registered bound property equals its expression recomputed from scratch (no further premise); the same for histories "
-            "that also reset() bound properties, destroy properties nobody reads (PropGrowLazyMore.v) and move-construct properties (PropMoveLazy.v), and a reset binding is dead and out of the registry evaluateAll iterates; for EVERY history (any outcome, acting observers): registries hold live bindings only and a dead binding stays dead, so a reset, replaced or destroyed binding is never evaluated again (PropReg.v). PARTIAL: mixed worlds (immediate and evaluator-driven bindings "
-            "together, acting observers, replacement, move assignment) are covered by the extracted checker "
+            "that also reset() bound properties, destroy properties nobody reads (PropGrowLazyMore.v) move-construct properties and move-assign them over destinations no live binding reads (PropMoveLazy.v: the destination's old binding dies and leaves its registry), and a reset binding is dead and out of the registry evaluateAll iterates; for EVERY history (any outcome, acting observers): registries hold live bindings only and a dead binding stays dead, so a reset, replaced or destroyed binding is never evaluated again (PropReg.v). PARTIAL: mixed worlds (immediate and evaluator-driven bindings "
+            "together, acting observers, replacement of a binding by direct rebinding) are covered by the extracted checker "
             "check_c06_after_evalall on every evaluateAll of every generated history and by correspondence.", '6/C06'),
     'C07': ("Machine-checked on the executable model: every direct write to a bound property raises ReadOnlyProperty and leaves the world unchanged; reset keeps "
             "value and observers, removes the updater and re-enables the normal write protocol; destroying/replacing a binding touches no property and no "
@@ -83,7 +83,7 @@ LEVEL_TEXT = {
             "the moved binding updates the destination, the overwritten binding is gone with all its subscriptions; no signal is left emitting. Scoped connections: "
             "a move hands the guarded connection over, the source guards nothing afterwards, what the destination guarded is disconnected. Values (coq/PropMove.v): "
             "move construction gives the destination the value and updater of the source, and in worlds of immediate bindings without acting observers every bound "
-            "property still equals its expression after a move construction or a move assignment over an unread destination. PARTIAL: values in mixed worlds and the notification order seen by observers "
+            "property still equals its expression after a move construction or a move assignment over an unread destination; in worlds of evaluator-driven bindings both moves keep the state conditions of C06's one-pass theorem; C11_property_move_assignment_transfers states field by field what a move assignment does (incl. the dead old binding leaving its registry). PARTIAL: acting observers and the notification order seen by observers "
             "are tied by correspondence and check_c02 on every reached world (tests).", '6/C11'),
     'C13': ("Machine-checked on the executable model: a clean node runs no user function, one evaluation runs at most one function per operator node, get() runs "
             "none, evaluator-driven notifications only mark; and exactly: from a clean tree, after notifications for any set of input leaves, one successful evaluation runs the "
